@@ -466,7 +466,7 @@ pub fn run_c16(ctx: &mut Ctx) {
             let len = if api.variable_length() { len } else { 64 };
             AlignCase { api, placement, len, seed }
         });
-    let n = ctx.count(25_000, 600_000);
+    let n = ctx.count(100_000, 1_000_000);
     ctx.run("random-placements", n, strat, align_check);
     ctx.required_classes.push("slice ends at an unmapped page".into());
     ctx.required_classes.push("slice starts after an unmapped page".into());
